@@ -13,7 +13,9 @@ LEVEL = "exploration"
 RULE = ("each case is a stack of 1-8 sequential/nested residual layers with tau log-uniform in [1e-3,1e3] (and exactly 1), tensor "
         "rank 1-4, branch functions drawn from {linear map, tanh, gelu o linear, U.linear, U.gelu, compositions}; executed in "
         "float64 three ways: residual_split/f/residual_add, residual_apply, and the closed form (x + tau f(x))/sqrt(1+tau^2) "
-        "built from plain torch ops, plus tensor hooks on the branch output and the scale spy. Non-trivial = tau != 1 or depth "
+        "built from plain torch ops, plus tensor hooks on the branch output and the scale spy; branch kinds include constant, detached "
+        "and IN-PLACE functions, single-element tensors, and half of the cases first use the same taus on bfloat16/float32 tensors "
+        "(history). Non-trivial = tau != 1 or depth "
         ">= 2; distinct = (structure, branch kinds, rank, tau bucket).")
 ASSUMPTIONS = ["PyTorch autograd of the closed form is the true derivative", "gradcheck finite differences"]
 IMPORTS = ["unit_scaling.functional", "unit_scaling.scale"]
